@@ -211,6 +211,8 @@ def exposed(s):
     return out
 
 
+TECHNIQUE += '; the layered histories repeated with array-valued state (two tidal layers; arrays as mutable cells)'
+
 def run(chk):
     repo = Repo(chk.repo)
     closures(chk, repo)
